@@ -430,6 +430,48 @@ func after_ID() int { return len(blob_ID) }
 	return x, y, err
 }
 `)
+	rawImp := func(fam, expect, imports, body string) {
+		ps = append(ps, &pg.Program{Fam: "S:" + fam, Expect: expect, Raw: "//go:build cff\n// +build cff\n\npackage PKG\n\nimport (\n\t\"context\"\n\n\t\"go.uber.org/cff\"\n" + imports + ")\n\n" + body})
+	}
+	// types that the file never names: they come from the signatures of another package's functions
+	rawImp("indirect-type:path-v2", "accept", "\t\"MOD/ext/backend\"\n", `func run_ID(ctx context.Context) (int, error) {
+	var n int
+	err := cff.Flow(ctx, cff.Results(&n), cff.Task(backend.Fetch), cff.Task(backend.Describe))
+	return n, err
+}
+`)
+	rawImp("indirect-type:dir-not-ident", "accept", "\t\"MOD/ext/backend\"\n", `func run_ID(ctx context.Context) (int64, error) {
+	var n int64
+	err := cff.Flow(ctx, cff.Results(&n), cff.Task(backend.Item), cff.Task(backend.Weigh))
+	return n, err
+}
+`)
+	rawImp("indirect-type:pkg-named-context", "accept", "\t\"MOD/ext/backend\"\n", `func run_ID(ctx context.Context) (uint8, error) {
+	var n uint8
+	err := cff.Flow(ctx, cff.Results(&n), cff.Task(backend.Token), cff.Task(backend.Spend))
+	return n, err
+}
+`)
+	rawImp("indirect-type:all", "accept", "\t\"MOD/ext/backend\"\n", `func run_ID(ctx context.Context) (int, int64, uint8, error) {
+	var (
+		a int
+		b int64
+		c uint8
+	)
+	err := cff.Flow(ctx, cff.Results(&a, &b, &c),
+		cff.Task(backend.Fetch), cff.Task(backend.Describe),
+		cff.Task(backend.Item), cff.Task(backend.Weigh),
+		cff.Task(backend.Token), cff.Task(backend.Spend))
+	return a, b, c, err
+}
+`)
+	rawImp("indirect-type:parallel-slice", "accept", "\t\"MOD/ext/backend\"\n", `func run_ID(ctx context.Context) error {
+	it := backend.Item()
+	s := []struct{ N int }{{1}}
+	_ = it
+	return cff.Parallel(ctx, cff.Slice(func(i int, v struct{ N int }) { _ = backend.Weigh }, s))
+}
+`)
 	raw("slice-noindex-sliceend", "accept", `func run_ID(ctx context.Context, s []int) error {
 	return cff.Parallel(ctx, cff.Slice(func(v int) {}, s, cff.SliceEnd(func() {})))
 }
@@ -589,7 +631,20 @@ func staticMain(prop, tier, build, overlay, repo, cffBin string) {
 	var samples []any
 	famCount := map[string]int{}
 	sets := map[string]*genSet{}
+	type modeRun struct {
+		m     genMode
+		progs []*pg.Program
+	}
+	var runs []modeRun
 	for _, m := range modes {
+		runs = append(runs, modeRun{m, progs})
+	}
+	if prop == "C13" {
+		// modifier mode is a mode of the tool too: the programs it supports
+		runs = append(runs, modeRun{genMode{"modifier", false}, modFamily(th)})
+	}
+	for _, mr := range runs {
+		m, progs := mr.m, mr.progs
 		name := m.mode
 		if m.autoInst {
 			name += "+auto"
